@@ -57,6 +57,29 @@ EXTRA = {
             ("SafeC.Printf.outRev_eq", "SafeC.Proofs.PrintfEmit", "lemma", "safec_out_rev = one emitAll of (left padding ++ reversed buffer ++ right padding), any sink, any state"),
             ("SafeC.Printf.emitRep_eq", "SafeC.Proofs.PrintfEmit", "lemma", "the padding loops = emitAll of a replicate"),
             ("SafeC.Printf.emitAll_idx", "SafeC.Proofs.PrintfEmit", "lemma", "a successful emitAll advances idx by the number of characters, whatever the sink")],
+    "C17": [("SafeC.Norm.canonVi_ok", "SafeC.Proofs.NormTables", "table", "every value the three-level canonical lookup can return addresses an existing slot of UNWIF_canon_tbl_1..4 (kernel check over all rows, regenerated tables)"),
+            ("SafeC.Norm.tbl1_stable", "SafeC.Proofs.NormTables2", "table", "every cell of UNWIF_canon_tbl_1 is a non-zero code point that is not decomposable and not a Hangul syllable"),
+            ("SafeC.Norm.tbl2_stable", "SafeC.Proofs.NormTables2", "table", "the same for UNWIF_canon_tbl_2"),
+            ("SafeC.Norm.tbl3_stable", "SafeC.Proofs.NormTables2", "table", "the same for UNWIF_canon_tbl_3"),
+            ("SafeC.Norm.tbl4_stable", "SafeC.Proofs.NormTables2", "table", "the same for UNWIF_canon_tbl_4"),
+            ("SafeC.Norm.ccc_check", "SafeC.Proofs.NormUCD", "table", "combining classes: tree = UCD 14.0 on every assigned code point of every block in which either side has a page (decide +kernel)"),
+            ("SafeC.Norm.dm_check", "SafeC.Proofs.NormUCD", "table", "stored decompositions = recursive expansion of UCD 14.0 mappings, expansion complete and inside the assigned set, every block in which either side has a page; U+037E excepted"),
+            ("SafeC.Norm.comp_fwd_check", "SafeC.Proofs.NormCompose", "table", "every UCD 14.0 primary composite is returned by _composite_cp for its pair and is not excluded (as is, and repaired)"),
+            ("SafeC.Norm.comp_bwd_check", "SafeC.Proofs.NormCompose", "table", "every stored pair with an assigned, non-excluded composite is a UCD 14.0 primary composite with exactly that pair"),
+            ("SafeC.Norm.decLoop_spec", "SafeC.Proofs.NormNFD", "lemma", "the decomposition loop of wcsnorm_decompose_s, every input and size: no out-of-bounds index, and on success the concatenated per-character decompositions, cells used + cells left = dmax"),
+            ("SafeC.Norm.reorderLoop_eq_pure", "SafeC.Proofs.NormReorder", "lemma", "the reorder loop (runs of non-starters collected, sorted by (class, arrival), emitted) = the pure canonical reordering, all lists"),
+            ("SafeC.Norm.composeLoop_no_oob", "SafeC.Proofs.NormRange", "lemma", "the compose loop indexes no table out of bounds on code points (or with the range check), every state of the loop"),
+            ("SafeC.Norm.composeLoop_no_overrun", "SafeC.Proofs.NormRange", "lemma", "with more room than pending cells the compose loop never wraps its unsigned dmax"),
+            ("SafeC.Norm.compositeCp_class0", "SafeC.Proofs.NormCompose2", "table", "whatever _composite_cp returns, for every pair of 32-bit values, has combining class 0 in the tree's table and in UCD 14.0 (stored composites kernel-checked, Hangul by arithmetic)"),
+            ("SafeC.Norm.fwd2_check", "SafeC.Proofs.NormPairMap", "table", "every UCD 14.0 primary composite (pair order) is what the repaired lookup returns, not excluded, non-zero, assigned"),
+            ("SafeC.Norm.bwd2_check", "SafeC.Proofs.NormPairMap", "table", "every stored pair with a non-excluded composite: the composite is assigned in 14.0 and is UCD's primary composite of exactly that pair"),
+            ("SafeC.Norm.cellcp_check", "SafeC.Proofs.NormPairMap", "table", "the composition list a code point reaches is the list recorded for that code point (every block with a page)"),
+            ("SafeC.Norm.pcOf_eq_ucd", "SafeC.Proofs.NormPairMap2", "lemma", "_composite_cp + isExclusion (repaired) = D114 primary composite of UCD 14.0 incl. Hangul, as functions on every pair of code points"),
+            ("SafeC.Norm.composeLoop_eq_pure", "SafeC.Proofs.NormComposeSpec", "lemma", "the compose loop of wcsnorm_compose_s (starter / pre_cc / pending sequence, look-ahead) = a pure streaming composition, all lists, any room"),
+            ("SafeC.Norm.composePure_eq_d117", "SafeC.Proofs.NormComposeSpec", "lemma", "the streaming composition = D117 as the Standard words it (seek back for the last starter, D115 blocking, replace and delete) on canonically ordered text when composites of starters are starters"),
+            ("SafeC.Norm.d117_congr_pc", "SafeC.Proofs.NormComposeSpec", "lemma", "D117 depends on the pair map only through a closed set containing the text"),
+            ("SafeC.Fold.fold_announce_exceptions", "SafeC.Proofs.FoldCount", "full", "each of the 748 listed code points really disagrees (announces 0 but folds / announces 1 but unchanged): the exception lists of fold_announce_partial are tight"),
+            ("SafeC.Fold.tables_lit", "SafeC.Proofs.FoldCount", "table", "the written-out copies of casemaps / pairs / casemapsl used by the fold proofs equal the generated tables")],
     "C08": [("SafeC.nullSlack_ok", "SafeC.Lemmas", "lemma", "both slack strategies (memset > 0x20, byte loop) zero the whole tail")],
     "C18": [("SafeC.setPrologue_ok", "SafeC.Proofs.MemSet", "lemma", "mem_prim_set alignment prologue: k <= count bytes stored, stops aligned or exhausted"),
             ("SafeC.setBlocks_ok", "SafeC.Proofs.MemSet", "lemma", "mem_prim_set 16-way unrolled body, induction on the block count: q*128 bytes"),
